@@ -79,3 +79,78 @@ Qed.
 Lemma fixed_order_same_schedule_runs :
   run_stuck_check cfg_now db1 10%Z deadlock_trace = false.
 Proof. vm_compute. reflexivity. Qed.
+
+(* ------------------------------------------------------------------ F5: the orphan session *)
+From Cloak Require Import Proofs.PanelWF Proofs.PanelOwn.
+
+Definition quiescent_check (s : state) : bool :=
+  forallb (fun t => is_done (thr s t)) (seq 0 (nthr s)).
+
+Definition owned1 (s : state) (k : nat) : bool :=
+  let r := s_owner (sess s k) in
+  s_closed (sess s k) || r_bypass (recs s r)
+  || ((match table s (r_uid (recs s r)) with Some r' => Nat.eqb r' r | None => false end)
+      && (match slook (s_sid (sess s k)) (r_sess (recs s r)) with Some k' => Nat.eqb k' k | None => false end)).
+
+Lemma quiescent_check_sound : forall s, quiescent_check s = true -> quiescent s.
+Proof.
+  intros s H t Ht. unfold quiescent_check in H. rewrite forallb_forall in H.
+  assert (Hin : In t (seq 0 (nthr s))) by (apply in_seq; lia).
+  apply H in Hin. destruct (thr s t); try discriminate; reflexivity.
+Qed.
+
+Lemma owned1_false : forall s k, k < nses s -> owned1 s k = false -> ~ owned s.
+Proof.
+  intros s k Hk H Ho. unfold owned1 in H.
+  apply orb_false_elim in H. destruct H as [H H3]. apply orb_false_elim in H. destruct H as [H1 H2].
+  destruct (Ho k Hk H1 H2) as [Ht Hs]. rewrite Ht, Hs, !Nat.eqb_refl in H3. discriminate.
+Qed.
+
+(* Thread 0 admits session 1 of user 1 (record 0).  Thread 1 (a second connection, session id
+   2) resolves the user: GetUser returns record 0; it is now at the schedule point
+   dispatch.gotUser.  Thread 2 = CloseSession(1) of record 0: the last session, so
+   TerminateActiveUser runs to the end (record 0 leaves activeUsers).  Thread 1 continues:
+   GetSession creates session 2 IN RECORD 0.  Thread 3: the next connection of user 1 (session
+   id 3) finds no active user and creates record 1 with a second valve. *)
+Definition orphan_trace : list label :=
+  [Spawn (OpDispatch 1 1)] ++ runs 0 4
+  ++ [Spawn (OpDispatch 1 2)] ++ runs 1 2
+  ++ [Spawn (OpClose 0 1)] ++ runs 2 9
+  ++ runs 1 2
+  ++ [Spawn (OpDispatch 1 3)] ++ runs 3 4.
+
+Lemma orphan_state : exists s, reachable cfg_now db1 10%Z s /\ quiescent s
+  /\ nrec s = 2 /\ r_uid (recs s 0) = 1%N /\ r_uid (recs s 1) = 1%N
+  /\ r_bypass (recs s 0) = false
+  /\ s_owner (sess s 1) = 0 /\ s_closed (sess s 1) = false     (* live session in record 0 *)
+  /\ s_owner (sess s 2) = 1 /\ s_closed (sess s 2) = false     (* live session in record 1 *)
+  /\ table s 1%N = Some 1                                      (* the panel knows record 1 only *)
+  /\ ~ owned s.
+Proof.
+  destruct (run cfg_now (init db1 10%Z) orphan_trace) as [s|] eqn:E; [|vm_compute in E; discriminate].
+  exists s. split; [exists orphan_trace; exact E|].
+  assert (H : quiescent_check s = true /\ nrec s = 2 /\ r_uid (recs s 0) = 1%N /\ r_uid (recs s 1) = 1%N
+              /\ r_bypass (recs s 0) = false
+              /\ s_owner (sess s 1) = 0 /\ s_closed (sess s 1) = false
+              /\ s_owner (sess s 2) = 1 /\ s_closed (sess s 2) = false
+              /\ table s 1%N = Some 1 /\ (1 <? nses s) = true /\ owned1 s 1 = false).
+  { vm_compute in E. injection E as <-. vm_compute. repeat split; reflexivity. }
+  destruct H as (H1&H2&H3&H4&H5&H6&H7&H8&H9&H10&H11&H12).
+  repeat (split; [assumption|]).
+  split; [now apply quiescent_check_sound|]. repeat (split; [assumption|]).
+  apply Nat.ltb_lt in H11. eapply owned1_false; eauto.
+Qed.
+
+Lemma ownership_refuted : ~ ownership cfg_now.
+Proof.
+  intro H. destruct orphan_state as [s (HR&HQ&_&_&_&_&_&_&_&_&_&Hn)].
+  apply Hn. apply (H _ _ _ HR HQ).
+Qed.
+
+(* the same schedule on the repaired model: thread 1 is sent back to look the user up again *)
+Lemma orphan_trace_patched_owned :
+  match run cfg_patched (init db1 10%Z) (orphan_trace ++ runs 1 4) with
+  | Some s => quiescent_check s && forallb (owned1 s) (seq 0 (nses s)) && Nat.eqb (nrec s) 2
+  | None => false
+  end = true.
+Proof. vm_compute. reflexivity. Qed.
